@@ -373,6 +373,7 @@ BATH_KINDS = {
     "CF-UnderdampedBrownian": ("CF", "UnderdampedBrownian", ("reorg", "freq", "gamma"), dict(T=300.0)),
     "CF-OverdampedBrownian": ("CF", "OverdampedBrownian", ("reorg",), dict(cortime=100.0, T=300.0, matsubara=1)),
     "SD-CP29": ("SD", "CP29", ("reorg",), dict(T=300.0)),
+    "SD-B777-polynomial": ("SD", "B777", ("reorg",), dict(T=300.0, alternative_form=True)),
     "CF-OverdampedBrownian-HighTemperature": ("CF", "OverdampedBrownian-HighTemperature", ("reorg",),
                                               dict(cortime=100.0, T=300.0)),
 }
@@ -390,12 +391,12 @@ BATH_KINDS = {
                     F_M + ":Manager.convert_energy_2_internal_u"],
          bound="analytic bath functions (spectral densities: overdamped / underdamped Brownian, 'Underdamped', 'CP29' "
                "(reorganisation energy symbolic, a 4-point axis without the zero frequency, the numerically measured "
-               "normalisation an uninterpreted, congruent value); "
+               "normalisation an uninterpreted, congruent value), the polynomial form of 'B777'; "
                "correlation functions: overdamped Brownian and its high-temperature form) whose energy parameters "
                "(reorganisation energy, oscillator frequency, damping; symbolic) are supplied inside an energy-units context "
                "as the converted numbers: data and reorganisation energy stored internally equal those of the "
                "same object built in internal units",
-         out="the B777 type, CP29 on axes containing the zero frequency (its measured normalisation divides 0 by 0 "
+         out="the Renger form of B777 (it calls numpy.math.factorial, which the pinned NumPy does not have), CP29 on axes containing the zero frequency (its measured normalisation divides 0 by 0 "
              "there - numpy's nan semantics, not modelled), CP29's optional shape parameters, and correlation functions "
              "obtained by numerical transforms (the time-domain 'B777' and 'CP29' types cannot be constructed at all in "
              "this tree: they read self.energy_units, which is never set)")
